@@ -14,6 +14,7 @@ import Driver.C06
 import Driver.C07
 import Driver.C08
 import Driver.C17
+import Driver.C10
 import Driver.C16
 open Lean
 
@@ -33,6 +34,8 @@ def handle (j : Json) : Json :=
   | .ok "C08" => C08.handle j
   | .ok "C09" => C08.handle j
   | .ok "C17" => C17.handle j
+  | .ok "C10" => C10.handle j
+  | .ok "C11" => C10.handle j
   | .ok "C16" => C16.handle j
   | _ => badOp
 
